@@ -1,5 +1,5 @@
 """C03 Sync gives a consistent snapshot, then a gap-free tail."""
-from mirlib import AnchorMissing, describe_call, describe_operand, describe_place, describe_rvalue, dom_guards, guards, decision_paths, _suffix_match
+from mirlib import AnchorMissing, edge_label, switch_desc, describe_call, describe_operand, describe_place, describe_rvalue, dom_guards, guards, decision_paths, _suffix_match
 from rules import uplinks
 from rules.common import aggregates, callers_by_name, owner_def, where
 
@@ -131,8 +131,39 @@ def run(ctx):
         if len(syn) != 1 or len(se) != 1:
             raise AnchorMissing("WriteQueues::pop: ToWrite::Synced / SyncEvent sites")
         d = describe_operand(pop, syn[0][2][0])
-        r.check(d.startswith("remove(") and d.endswith(".id") and "sync_queues" in d, "WriteQueues::pop/Synced-id-of-removed-queue", pop.loc(syn[0][3]), "Synced(id) carries the id of the queue that was removed (%s)" % d[:70],
+        r.check((d.startswith("remove(") or d.startswith("swap_remove(")) and d.endswith(".id") and "sync_queues" in d, "WriteQueues::pop/Synced-id-of-removed-queue", pop.loc(syn[0][3]), "Synced(id) carries the id of the queue that was removed (%s)" % d[:70],
                 "Synced carries %s" % d[:80])
+        # the round-robin index stays inside the vector: whenever a queue is taken out, the index is brought back into range
+        # before pop returns (otherwise get_mut(sync_index) is None for ever and the remaining snapshots and events are stuck)
+        shrink = []
+        for bq in ag.all_bodies():
+            for c in bq.calls:
+                if c.name in ("remove", "swap_remove", "pop", "truncate", "clear", "drain", "retain", "split_off") and c.args and describe_operand(bq, c.args[0]).endswith("sync_queues") and "WriteQueues" in str(c.body.defpath):
+                    shrink.append((bq, c))
+        r.check(len(shrink) == 1 and shrink[0][0] is pop, "WriteQueues/sync_queues-shrinks-only-in-pop", where(pop), "the only place a snapshot queue is removed is WriteQueues::pop", "sync_queues is shrunk in %s" % [b_.defpath.split("::")[-1] for b_, _ in shrink])
+        idx_writes = set()
+        for i, j, p, rv, line in pop.assigns():
+            if p[1] and describe_place(pop, p).endswith("sync_index"):
+                dr = describe_rvalue(pop, rv)
+                if dr == "0" or (dr.startswith("Rem(") and "len(self.sync_queues)" in dr):
+                    idx_writes.add(i)
+        in_range = []
+        for sb in range(pop.n):
+            if pop.is_cleanup(sb) or pop.term(sb)["k"] != "switch":
+                continue
+            dsw = switch_desc(pop, sb)
+            for t_ in pop.succ[sb]:
+                l = {"0": "false", "1": "true"}.get(edge_label(pop, sb, t_), edge_label(pop, sb, t_))
+                if (dsw.startswith("Ge(") and "sync_index" in dsw and "len(self.sync_queues)" in dsw and l == "false") or (dsw.startswith("Lt(") and "sync_index" in dsw and "len(self.sync_queues)" in dsw and l == "true"):
+                    in_range.append((sb, t_))
+        for bq, c in shrink:
+            if bq is not pop:
+                continue
+            ok, wit = pop.must_pass_edges([c.target], idx_writes, in_range)
+            r.check(ok, "WriteQueues::pop/index-in-range-after-removal", c.loc(), "after a queue is removed sync_index is reset (or found to be < len) before pop returns",
+                    "after %s(sync_queues, sync_index) the index can stay >= len: get_mut(sync_index) is None from then on, so the remaining snapshots never finish and queued events are not written (%s)" % (c.name, [pop.blocks[q]["t"].get("line") for q in (wit or [])][:6]))
+        adv = [(i, describe_rvalue(pop, rv)) for i, j, p, rv, line in pop.assigns() if p[1] and describe_place(pop, p).endswith("sync_index") and "Add" in describe_rvalue(pop, rv)]
+        r.check(len(adv) == 1 and adv[0][1].startswith("Rem(") and "len(self.sync_queues)" in adv[0][1], "WriteQueues::pop/advance-modulo-len", where(pop), "the round-robin advance is (index + 1) % len", "sync_index is advanced as %s" % [a for _, a in adv])
         g = dom_guards(pop, syn[0][0])
         r.check(any(dd.startswith("disc(pop(") and l == "None" for dd, l, _ in g), "WriteQueues::pop/Synced-only-when-exhausted", pop.loc(syn[0][3]), "Synced only when the snapshot queue is exhausted")
         d2 = [describe_operand(pop, o) for o in se[0][2]]
